@@ -290,8 +290,63 @@ pub fn cmd_text_fields(a: &HashMap<String, String>) -> i32 {
             }
         }
     }
+    n += mso_events(&mut w);
     println!("{}", json!({"events": n, "fields": FIELDS.len()}));
     0
+}
+
+/// IS_MSO carries "name: text" as ONE LFS string plus the byte offset where the text starts.  Frames are built the way
+/// LFS builds them (one encoded string, offset = encoded length of the name part) and decoded by the real code.
+fn mso_events(w: &mut impl Write) -> usize {
+    let mut n = 0;
+    let names = ["Bob", "\u{11b}\u{161}", "\u{11b}\u{11b}\u{11b}", "\u{448}\u{448}", "\u{ff0f}a", "^1R\u{e9}d", ""];
+    let texts = [" : hi", "\u{11b}\u{161} ok", "\u{448}!", "\u{e9}t\u{e9}", "plain", "\u{ff0f}\u{ff0f}"];
+    for name in names {
+        for text in texts {
+            let whole = format!("{name}{text}");
+            let enc_whole = codepages::to_lossy_bytes(&whole).to_vec();
+            let enc_name = codepages::to_lossy_bytes(name).to_vec();
+            if !enc_whole.starts_with(&enc_name) || enc_whole.len() > 120 {
+                continue; // the name's encoding must be a prefix of the whole string's encoding (left-to-right encoder)
+            }
+            let ts = enc_name.len();
+            let mut body = enc_whole.clone();
+            let padded = (body.len() + 4) & !3;
+            body.resize(padded, 0);
+            let len = 8 + body.len();
+            let mut frame = vec![len as u8, 11, 0, 0, 3, 7, 1, ts as u8];
+            frame.extend_from_slice(&body);
+            let mut e = json!({"ev": "MsoDec", "enc": enc_whole, "ts": ts, "whole": cps(&whole), "name": cps(name), "frame": frame});
+            match standalone("U", &frame) {
+                (_, Some(p)) => {
+                    let a = p.to_abs();
+                    e["msg"] = a["rec"]["msg"].clone();
+                    e["textstart"] = a["rec"]["textstart"].clone();
+                    e["res"] = json!("ok");
+                    match try_encode("U", &p) {
+                        Ok(b) => {
+                            e["re"] = json!(b);
+                            e["re_res"] = json!("ok");
+                        },
+                        Err(x) => {
+                            e["re"] = json!([]);
+                            e["re_res"] = json!(x);
+                        },
+                    }
+                },
+                (v, None) => {
+                    e["res"] = json!(format!("{:?}", v));
+                    e["msg"] = json!([]);
+                    e["textstart"] = json!(0);
+                    e["re"] = json!([]);
+                    e["re_res"] = json!("n/a");
+                },
+            }
+            let _ = writeln!(w, "{}", e);
+            n += 1;
+        }
+    }
+    n
 }
 
 fn frame_would_overflow(_f: &FieldSpec, _enc_len: usize) -> bool {
